@@ -252,6 +252,13 @@ class Check:
                 if msg not in self.known_hits:
                     self.known_hits.append(msg)
                 return
+        try:
+            from . import vloop
+            replay = dict(replay)
+            # the rigs alternate the package logger between DEBUG and disabled (VERIF_DEBUGLOG=0/1 forces it on replay)
+            replay.setdefault("debug_logging", vloop._LOG_STATE.get("on"))
+        except Exception:  # noqa: BLE001
+            pass
         self.violations.append((what, replay, found_input))
 
     def finish(self) -> int:
